@@ -15,31 +15,46 @@ import (
 
 func c05NodeScenarios() []histParams {
 	ev := []string{"tx:T:R1", "tx:U1:D1", "tx:T:D1", "tx:U1:D2", "tx:U1:R1", "tx:T:R3", "tx:U1:M1", "tx:U1:M2", "tx:U1:I1", "mine+:R1", "mine+:D2", "tick:250", "tick:2300", "restart"}
-	return []histParams{{Prop: "C05", Cfg: txCfg(1), Boot: "synced", Events: ev, Tx: true}}
+	// conflicts that span a clean restart or a crash (the mempool is rebuilt from what was persisted)
+	focus := []string{"tx:T:R1", "tx:U1:D1", "tx:T:M2", "crash", "restart", "tick:2300"}
+	return []histParams{{Prop: "C05", Cfg: txCfg(1), Boot: "synced", Events: ev, Tx: true},
+		{Prop: "C05", Cfg: txCfg(1), Boot: "synced", Events: focus, Tx: true, ExtraDepth: 1}}
 }
 
 func c06Scenarios() []histParams {
 	ev := []string{"tx:T:R1", "tx:U1:I1", "tx:T:R3", "tx:U1:D1", "tx:U1:D2", "inv:U1:D1", "inv:T:D2", "mine+:D1", "mine+:D2", "mine+:M1", "mine+:D1,I2", "mine+:R1", "mine:D2", "ans", "tick:250", "tick:2300"}
-	return []histParams{{Prop: "C06", Cfg: txCfg(1), Boot: "synced", Events: ev, Tx: true}}
+	// losers that were delivered before a clean restart or a crash
+	focus := []string{"tx:T:R1", "tx:U1:D1", "restart", "crash", "mine+:", "mine+:D2", "mine+:D1", "offline:D2"}
+	return []histParams{{Prop: "C06", Cfg: txCfg(1), Boot: "synced", Events: ev, Tx: true},
+		{Prop: "C06", Cfg: txCfg(1), Boot: "synced", Events: focus, Tx: true}}
 }
 
 func c07Scenarios() []histParams {
 	ev := []string{"tx:U1:R1", "inv:T:R1", "tx:T:R1", "ans", "tx:U1:D1", "tx:U1:D2", "tx:T:D1", "tx:T:R3", "tx:U1:M2", "local:R3", "tick:100", "tick:1900", "tick:2300", "mine+:R1", "mine+:", "restart"}
-	return []histParams{{Prop: "C07", Cfg: txCfg(1), Boot: "synced", Events: ev, Tx: true, Live: true}}
+	// a conflicting tx confirmed while the node was down / catching up
+	focus := []string{"tx:T:R1", "tx:U1:R1", "inv:T:R1", "offline:D2", "offline:", "restart", "tick:1900", "tick:2300"}
+	return []histParams{{Prop: "C07", Cfg: txCfg(1), Boot: "synced", Events: ev, Tx: true, Live: true},
+		{Prop: "C07", Cfg: txCfg(1), Boot: "synced", Events: focus, Tx: true, Live: true}}
 }
 
 func c11Scenarios() []histParams {
 	ev := []string{"tx:T:R1", "tx:U1:R1", "tx:U1:D1", "inv:T:R1", "ans", "tick:2300", "restart", "restart:raw", "mine+:R1", "mine+:", "settle"}
 	deep := []string{"tx:T:R1", "tx:U1:D1", "tick:2300", "restart", "mine+:R1", "mine+:"}
-	return []histParams{{Prop: "C11", Cfg: txCfg(1), Boot: "synced", Events: ev, Tx: true},
-		{Prop: "C11", Cfg: txCfg(1), Boot: "synced", Events: deep, Tx: true, ExtraDepth: 2}}
+	// the application subscribes its filter only after the restarted node is already running
+	late := []string{"tx:T:R1", "tick:2300", "restart:late", "tx:U1:R1", "tx:T:R1", "sub", "mine+:R1"}
+	return []histParams{{Prop: "C11", Cfg: txCfg(1), Boot: "synced", Events: ev, Tx: true, Live: true},
+		{Prop: "C11", Cfg: txCfg(1), Boot: "synced", Events: deep, Tx: true, ExtraDepth: 2, Live: true},
+		{Prop: "C11", Cfg: txCfg(1), Boot: "synced", Events: late, Tx: true, ExtraDepth: 2}}
 }
 
 func c14Scenarios() []histParams {
 	ev := []string{"inv:T:R1", "inv:U1:R1", "inv:U2:R1", "inv:T:R1,R3", "inv:U1:R3", "ans", "uans:U1", "uans:U2", "uping:U1", "uping:U2", "ping", "tick:1000", "tick:3100", "mine+:R1", "reorgmine:1:R1", "settle"}
 	deep := []string{"inv:T:R1", "inv:U1:R1", "reorgmine:1:R1", "settle", "tick:3100", "uping:U1", "mine+:R1", "ans"}
+	// one peer delivers, another only tracked the announcement and stays silent until the tx is confirmed
+	two := []string{"inv:U1:R1", "inv:U2:R1", "uans:U1", "mine+:R1", "uping:U2", "tick:3100"}
 	return []histParams{{Prop: "C14", Cfg: txCfg(2), Boot: "synced", Events: ev, Tx: true},
-		{Prop: "C14", Cfg: txCfg(1), Boot: "synced", Events: deep, Tx: true, ExtraDepth: 2}}
+		{Prop: "C14", Cfg: txCfg(1), Boot: "synced", Events: deep, Tx: true, ExtraDepth: 2},
+		{Prop: "C14", Cfg: txCfg(2), Boot: "synced", Events: two, Tx: true, ExtraDepth: 2}}
 }
 
 var histSched = map[string]func() []nschedTask{
@@ -101,7 +116,7 @@ func init() {
 				{P: sc11, Hist: []string{"mine+:", "mine:", "ans", "tick:250", "tx:T:R1", "tick:250", "restart", "tx:T:R1", "tx:U1:R1", "mine+:R1"}},
 			},
 			budgetQ: 150 * time.Second, budgetT: 25 * time.Minute, rule: c11rule + ". Plus stateless schedule exploration of one baseline (tx arriving while a block is processed, restart, re-announcement, confirmation): one stall (250 ms) or pre-emption at every scheduling point, same oracles", assume: peerAssumption, accept: func(v core.Violation) bool {
-				return strings.Contains(v.Class, "across restart") || strings.Contains(v.Class, "after restart")
+				return strings.Contains(v.Class, "across restart") || strings.Contains(v.Class, "after restart") || strings.Contains(v.Class, "before a clean restart")
 			}})
 		return rep.Finish()
 	}
